@@ -88,7 +88,11 @@ where
     }
 
     fn size_hint(&self) -> (usize, Option<usize>) {
-        self.source.size_hint_items()
+        // the filter may drop any remaining item of the source;
+        // only the already buffered items are certain
+        let buffered = self.buffer.len();
+        let upper = self.source.size_hint_items().1;
+        (buffered, upper.and_then(|u| u.checked_add(buffered)))
     }
 }
 
